@@ -109,7 +109,7 @@ func (a ActivityVocabularyType) MarshalJSON() ([]byte, error) {
 		return nil, nil
 	}
 	b := make([]byte, 0)
-	JSONWriteStringValue(&b, string(a))
+	jsonWriteEscapedString(&b, string(a))
 	return b, nil
 }
 
@@ -565,7 +565,7 @@ func (m MimeType) MarshalJSON() ([]byte, error) {
 		return nil, nil
 	}
 	b := make([]byte, 0)
-	JSONWriteStringValue(&b, string(m))
+	jsonWriteEscapedString(&b, string(m))
 	return b, nil
 }
 
